@@ -75,7 +75,9 @@ func flipPattern(root *gen.Node, rng *rand.Rand) *gen.Node {
 						it.Lo = gen.OtherCase(it.Lo)
 					}
 				case "range":
-					if gen.IsPairLetter(it.Lo) && gen.IsPairLetter(it.Hi) && rng.Intn(2) == 0 {
+					// (not the wide ranges added below, Sp 15: flipping both ends of a range that spans
+					// several scripts gives a different set of non-letters, e.g. with and without U+00F7)
+					if it.Sp != 15 && gen.IsPairLetter(it.Lo) && gen.IsPairLetter(it.Hi) && rng.Intn(2) == 0 {
 						lo, hi := gen.OtherCase(it.Lo), gen.OtherCase(it.Hi)
 						if lo <= hi {
 							it.Lo, it.Hi = lo, hi
